@@ -505,13 +505,14 @@ SRV_PROPERTIES = "ElecMonotone LowerNeverSteals OnlyPrimaryWrites ElecOnlyByElec
 
 def srv_cfg(Sess=("s1", "s2", "s3"), HiVals=(0, 1), LoVals=(1, 2), ParamMsgs="good", WithBadMsgs=False, OpShapes="nh",
             StampModes=("last", "any", "none"), FwdModes=(True,), AckModes=("RIB",), MaxMsgs=5, MaxOpen=2, WithClose=True,
-            WithFlushRPC=False, EmitOn=False, view=True, invariants=True):
+            WithFlushRPC=False, WithSendFail=False, EmitOn=False, view=True, invariants=True):
     lines = ["SPECIFICATION MCSpec", "CONSTANTS", '  DefaultNI = "DEFAULT"',
              f"  Sess = {tlaset(Sess)}", f"  HiVals = {tlaset(HiVals)}", f"  LoVals = {tlaset(LoVals)}",
              f"  ParamMsgs = {q(ParamMsgs)}", f"  WithBadMsgs = {str(WithBadMsgs).upper()}", f"  OpShapes = {q(OpShapes)}",
              f"  StampModes = {tlaset(StampModes)}", f"  FwdModes = {tlaset(FwdModes)}", f"  AckModes = {tlaset(AckModes)}",
              f"  MaxMsgs = {MaxMsgs}", f"  MaxOpen = {MaxOpen}", f"  WithClose = {str(WithClose).upper()}",
-             f"  WithFlushRPC = {str(WithFlushRPC).upper()}", f"  EmitOn = {str(EmitOn).upper()}"]
+             f"  WithFlushRPC = {str(WithFlushRPC).upper()}", f"  WithSendFail = {str(WithSendFail).upper()}",
+             f"  EmitOn = {str(EmitOn).upper()}"]
     if view:
         lines.append("VIEW View")
     if invariants:
@@ -526,13 +527,13 @@ def srv_cfg(Sess=("s1", "s2", "s3"), HiVals=(0, 1), LoVals=(1, 2), ParamMsgs="go
 def srv_attr(comp, ev, rec):
     if comp.startswith("close:") or comp in ("closeEnd", "closeUnexpected"):
         base = comp.split(":", 1)[1] if ":" in comp else comp
-        extra = {"sst:cur": {"C05"}, "sst:master": {"C05"}, "elecNotMax": {"C05"}}.get(base, set())
+        extra = {"sst:cur": {"C05"}, "sst:master": {"C05"}, "elecNotMax": {"C05"}, "sst:last": {"C04"}}.get(base, set())
         return {"C10"} | extra
     if comp.startswith("flushGate") or comp in ("flushResult", "flushUnexpected"):
         return {"C08"}
     if comp.startswith("flush:"):
         base = comp[6:]
-        if base in ("sst:cur", "sst:master", "elecNotMax"):
+        if base in ("sst:cur", "sst:master", "elecNotMax", "sst:last"):
             return {"C08", "C05"}
         if base == "sst:sess":
             return {"C08", "C09"}
@@ -540,6 +541,7 @@ def srv_attr(comp, ev, rec):
     if comp.startswith("msgend:") or comp.startswith("open:"):
         return {"C04", "C10"}      # state changed outside any RIB call of the primary
     table = {
+        "sst:last": {"C04", "C05"},
         "resp:elec": {"C05"}, "sst:cur": {"C05", "C04"}, "sst:master": {"C05", "C04"}, "elecNotMax": {"C05"},
         "ribCallUnexpected": {"C04"}, "strayrib": {"C04"}, "ribCallMissing": {"C04", "C06"},
         "opResp": {"C06"}, "extraResp": {"C06"}, "opsUnanswered": {"C06"}, "opOrder": {"C06"}, "foreignResult": {"C06"},
@@ -740,3 +742,67 @@ _srv("C09",
      mc={"quick": [dict(MaxMsgs=4, MaxOpen=2, ParamMsgs="all", WithBadMsgs=True, AckModes=("RIB", "RIB_FIB"), HiVals=(0,), LoVals=(1,), StampModes=("last", "none"))],
          "thorough": [dict(MaxMsgs=5, MaxOpen=3, ParamMsgs="all", WithBadMsgs=True, AckModes=("RIB", "RIB_FIB"), HiVals=(0,), LoVals=(1, 2), StampModes=("last", "none"))]},
      sims=_S_SIMS, exh=_S_EXH, random_cfg=_rnd(["fsm", "elec"], 80, 800))
+
+
+class CompositeFamily:
+    """A property decided by several families (e.g. RIB-level and server-level parts)."""
+
+    def __init__(self, prop, parts):
+        self.prop, self.parts = prop, parts
+
+    def run(self, ctx):
+        res = Result()
+        cov = {"states": 0, "transitions": 0, "traces_validated_against_impl": 0, "evaluations": 0,
+               "distinct_nontrivial": 0, "samples": [], "parts": {}, "exhaustive": False}
+        rules = []
+        for part in self.parts:
+            r = part.run(ctx)
+            res.violations += r.violations
+            res.known += [k for k in r.known if k not in res.known]
+            res.notes += r.notes
+            res.assumptions += [a for a in r.assumptions if a not in res.assumptions]
+            for k in ("states", "transitions", "traces_validated_against_impl", "evaluations", "distinct_nontrivial"):
+                cov[k] += r.coverage.get(k, 0) or 0
+            cov["samples"] += r.coverage.get("samples", [])[:2]
+            cov["parts"][part.FAMILY] = {k: v for k, v in r.coverage.items() if k != "samples"}
+            rules.append(f"[{part.FAMILY}] " + r.coverage.get("rule", ""))
+        cov["rule"] = " ; ".join(rules)
+        res.coverage = cov
+        return res
+
+    def replay(self, ctx, path):
+        fam = json.load(open(path)).get("family")
+        for part in self.parts:
+            if part.FAMILY == fam:
+                return part.replay(ctx, path)
+        raise Infra(f"no part handles family {fam}")
+
+
+_c08_rib = REGISTRY["C08"]
+_c08_srv = ServerFamily("C08",
+    mc={"quick": [dict(MaxMsgs=5, MaxOpen=2, HiVals=(0, 1), LoVals=(1, 2), StampModes=("last",), WithFlushRPC=True)],
+        "thorough": [dict(MaxMsgs=6, MaxOpen=2, HiVals=(0, 1), LoVals=(1, 2), StampModes=("last",), WithFlushRPC=True, OpShapes="chain")]},
+    sims={"quick": [(dict(_S_SIM_ELEC, WithFlushRPC=True), 150, 300), (dict(_S_SIM_OPS, WithFlushRPC=True), 100, 400)],
+          "thorough": [(dict(_S_SIM_ELEC, WithFlushRPC=True), 2500, 300), (dict(_S_SIM_OPS, WithFlushRPC=True), 2000, 400)]},
+    exh={"quick": [dict(MaxMsgs=3, MaxOpen=1, HiVals=(0, 1), LoVals=(1, 2), OpShapes="nh", StampModes=("last",), WithFlushRPC=True, WithClose=False)],
+         "thorough": [dict(MaxMsgs=4, MaxOpen=1, HiVals=(0, 1), LoVals=(1, 2), OpShapes="nh", StampModes=("last",), WithFlushRPC=True, WithClose=False)]},
+    random_cfg=_rnd(["flush"], 100, 1000))
+REGISTRY["C08"] = CompositeFamily("C08", [_c08_rib, _c08_srv])
+
+_c12_rib = REGISTRY["C12"]
+_c12_srv = ServerFamily("C12",
+    mc={"quick": [dict(MaxMsgs=4, MaxOpen=2, HiVals=(0,), LoVals=(1,), StampModes=("last", "none"))],
+        "thorough": [dict(MaxMsgs=5, MaxOpen=2, HiVals=(0,), LoVals=(1,), StampModes=("last", "none"), OpShapes="chain")]},
+    sims={"quick": [(_S_SIM_OPS, 100, 400)], "thorough": [(_S_SIM_OPS, 1500, 400)]},
+    exh={"quick": [], "thorough": []},
+    random_cfg=_rnd(["bad"], 100, 1000))
+REGISTRY["C12"] = CompositeFamily("C12", [_c12_rib, _c12_srv])
+
+_srv("C10",
+     mc={"quick": [dict(MaxMsgs=5, MaxOpen=2, HiVals=(0,), LoVals=(1, 2), StampModes=("last",), WithSendFail=True)],
+         "thorough": [dict(MaxMsgs=6, MaxOpen=3, HiVals=(0,), LoVals=(1, 2), StampModes=("last",), WithSendFail=True, OpShapes="chain")]},
+     sims={"quick": [(dict(_S_SIM_OPS, WithSendFail=True), 150, 400), (dict(_S_SIM_ELEC, WithSendFail=True), 100, 300)],
+           "thorough": [(dict(_S_SIM_OPS, WithSendFail=True), 2500, 400), (dict(_S_SIM_ELEC, WithSendFail=True), 2000, 300)]},
+     exh={"quick": [dict(MaxMsgs=4, MaxOpen=1, HiVals=(0,), LoVals=(1,), OpShapes="nh", StampModes=("last",), WithSendFail=True)],
+          "thorough": [dict(MaxMsgs=5, MaxOpen=2, HiVals=(0,), LoVals=(1,), OpShapes="nh", StampModes=("last",), WithSendFail=True)]},
+     random_cfg=_rnd(["cut"], 120, 1200, length=60))
